@@ -6,6 +6,7 @@ package main
 
 import (
 	"fmt"
+	"os"
 	"math/rand"
 	"regexp"
 	"sort"
@@ -159,7 +160,7 @@ func checkC06(c *Ctx) {
 }
 
 func (c *Ctx) c06Deterministic(i int, hr *HistRun, o *HistOpts, alts map[int64][][]byte, qs []queryTpl, rng *rand.Rand) {
-	dir := c.Dir(fmt.Sprintf("c06-%d-noisy", i))
+	dir := c.DirI(i, fmt.Sprintf("c06-%d-noisy", i))
 	r, _, err := openReplica(c, dir, hr.G.G, SpawnOpt{}, true)
 	if err != nil {
 		c.Err(i, "open", err)
@@ -314,6 +315,7 @@ type stressOutcome struct {
 
 func runStress(c *Ctx, i int, tag string, hr *HistRun, alts map[int64][][]byte, qs []queryTpl, clients int, race bool) (*stressOutcome, error) {
 	dir := c.Dir(fmt.Sprintf("%s-%d-stress", tag, i))
+	defer os.RemoveAll(dir)
 	r, _, err := openReplica(c, dir, hr.G.G, SpawnOpt{Race: race, Env: []string{"GORACE=halt_on_error=0"}}, true)
 	if err != nil {
 		return nil, err
